@@ -316,7 +316,7 @@ def run_workers(case, ctx):
                           mutate_between_calls=rng.random() < 0.3,
                           memmap_backed=rng.random() < 0.4, mm_offset=rng.choice([0, 16, 64, 4096]), mm_slice=rng.random() < 0.5,
                           mm_view=rng.choice([None, None, "T", "rev", "rev-last", "step", "inner", "swap", "plain-ndarray", "plain-ndarray-T", "rev-all", "newaxis"]),
-                          mmap_mode=rng.choice(["r", "r", "c", "r+", "w+"])))
+                          mmap_mode=rng.choice(["r", "r", "c", "r+", "w+", None])))      # None: documented as 'memmapping disabled'
     views = ["T", "rev", "rev-last", "step", "inner", "swap", "plain-ndarray", "plain-ndarray-T", "rev-all", "newaxis", "as-other-dtype", "as-swapped-dtype", "as-bytes"]
     for j in range(4):
         # views of file-backed arrays with at least two dimensions: every kind of view comes up in every few cases
@@ -324,7 +324,7 @@ def run_workers(case, ctx):
                           layout=rng.choice(["C", "F"]), max_nbytes=rng.choice(["none", "size+1", "1K", "0"]), memmap_backed=True,
                           mm_offset=rng.choice([0, 16, 64, 4096]), mm_slice=rng.random() < 0.3, mm_view=views[(case["i"] * 4 + j) % len(views)],
                           mm_private_write=rng.random() < 0.25,
-                          mmap_mode=rng.choice(["r", "c", "r+", "w+"])))
+                          mmap_mode=rng.choice(["r", "c", "r+", "w+", None])))
     d = harness.mkscratch("vjl-c19w-")
     try:
         cf, of = os.path.join(d, "cfg.json"), os.path.join(d, "out.json")
